@@ -188,10 +188,18 @@ def site_decisions(ctx, rep, clause):
                         env[norm_stmt(x)] = isinstance(x.ops[0], ast.Eq)
                 got = None
                 try:
-                    ge = GuardEval(env, c.aliases(), hook)
+                    # module-level literal constants (the list of valid modes, ...) are known values
+                    al = dict(c.aliases())
+                    for nm_, v_ in f.module.assigns.items():
+                        if nm_ not in al and not c.is_local(nm_) and isinstance(v_, (ast.List, ast.Tuple, ast.Set, ast.Constant)):
+                            al[nm_] = v_
+                    ge = GuardEval(env, al, hook)
                     marks = {}
                     for st in specialise(body, ge, marks):
                         if isinstance(st, ast.Raise):
+                            if not marks.get(id(st)):
+                                raise AnalysisError(f'{f.fq}: a raise under a test that is not decided for mode '
+                                                    f'{mode!r} (form not read)')
                             got = ('raise', None)
                             break
                         if isinstance(st, (ast.Continue, ast.Return)) and marks.get(id(st)):
